@@ -14,6 +14,10 @@ import json, os, subprocess, sys, glob, re, time
 VERIF = "/verif"
 REPO = "/repo"
 EXPECTED_MISS = {
+    "C06-B": "exactly one Return per call is a history property: no contract relates an answer's life cycle to the messages sent",
+    "C07-B": "fillPayloadCapTable's per-payload count map is not under contract",
+    "C10-B": "needs the resolution chain as a recursive spec function and channel closedness, neither modelled",
+    "C19-B": "value correspondence of pogs insertField is not under contract",
     "C18-C": "rewrites the scanned loop: contract drift, reported UNDECIDED by design",
     "C18-A": "superseded: the code it patches was rewritten by the F20 fix",
     "C16-A": "changes the loop header the invariants are attached to: contract drift, reported UNDECIDED by design",
